@@ -8,6 +8,10 @@ KIND_B='FAULT AT A PARTICULAR POINT'
 TEXT_B='The property must stay intact in fault-free runs and break only when a fault happens at one particular point: e.g. a socket send/recv raising or returning short or empty at a particular call, select() raising, the peer closing at a particular byte offset, zlib or the cipher raising, a thread starting late, a listener or handler raising at a particular stage, the HTTP service answering with an odd status/body, the second of two operations failing after the first succeeded. The demo injects exactly that fault (a scripted fake socket/peer, a monkeypatched external such as socket/select/zlib/requests/time/os.urandom is fine; do NOT monkeypatch the library itself) and shows the property violated afterwards.'
 KIND_C='MULTI-STEP HISTORY'
 TEXT_C='The property must stay intact for every single operation tried from a fresh state and break only after a HISTORY of at least three public operations in a particular order (for example connect - disconnect - connect again; authenticate - failed refresh - join; extend the version records - re-initialise - compare; several maps / players updated alternately; a listener registered, used, then another registered; compression enabled then a reconnect; status query then connect on the same object). State carried from an earlier step (a cached value, a list that is not cleared, a flag that is not reset, an attribute shared between instances, a default mutable argument) must be what makes a later step go wrong.'
+KIND_D='PARTICULAR INTERLEAVING'
+TEXT_D='The property must stay intact in every single-threaded use and break only under ONE PARTICULAR INTERLEAVING of two threads (the networking thread and a user thread, or two user threads): a lock taken a little later or released a little earlier, a check made outside the lock and acted on inside it, a flag read twice, a list iterated while another thread registers into it, a queue inspected and then popped in two steps, an attribute swapped in two assignments that another thread can see in between. The demo must FORCE that interleaving deterministically (threading.Event / Barrier placed through a subclassed or wrapped socket, listener, handler or packet object, or a monkeypatched EXTERNAL such as socket / select / time / threading - do NOT monkeypatch the library itself and do not rely on sleeping and hoping) and show the property violated; on the original code the same forced schedule must be harmless.'
+KIND_E='UNUSUAL BUT VALID USE OF THE PUBLIC API'
+TEXT_E='The property must stay intact for the ways the test suite and start.py use the library and break only for an UNUSUAL BUT VALID use of the public API that the documentation or the code comments explicitly allow: an optional argument given (or given by keyword instead of by position, or as the other accepted type - a name instead of a number, a tuple instead of a record, a list instead of a set, bytes-like instead of bytes), a documented alternative call style (decorator instead of method, class access instead of instance access, subclass overriding a documented hook such as get_id / get_definition / a class attribute), an instance reused or copied, an empty collection, a packet or type defined by the user on top of the library base classes. The demo uses only such documented forms.'
 i=0
 for n in $(seq -w 1 20); do
   PID="C$n"; D="/tmp/seed${ROUND:-8}-$PID"
@@ -20,8 +24,8 @@ for l in open(sys.argv[1]):
     if p['id'] == sys.argv[2]:
         print(p['title']); print(); print(p['statement'])
 PY
-  case "${KINDS:-}" in "") k=$(( i % 3 ));; *) k=$(echo "$KINDS" | cut -c$((i+1)) | tr 'ABC' '012');; esac
-  case $k in 0) K="$KIND_A"; T="$TEXT_A";; 1) K="$KIND_B"; T="$TEXT_B";; 2) K="$KIND_C"; T="$TEXT_C";; esac
+  case "${KINDS:-}" in "") k=$(( i % 3 ));; *) k=$(echo "$KINDS" | cut -c$((i+1)) | tr 'ABCDE' '01234');; esac
+  case $k in 0) K="$KIND_A"; T="$TEXT_A";; 1) K="$KIND_B"; T="$TEXT_B";; 2) K="$KIND_C"; T="$TEXT_C";; 3) K="$KIND_D"; T="$TEXT_D";; 4) K="$KIND_E"; T="$TEXT_E";; esac
   { sed "s#__DIR__#$D#g" "$HERE/tools/seed_prompt.txt"; echo
     sed -e "s#__KIND__#$K#" "$HERE/tools/seed_prompt8_extra.txt" | python3 -c "import sys; print(sys.stdin.read().replace('__KINDTEXT__', sys.argv[1]))" "$T"; } > "$D/PROMPT.txt"
   echo "$PID kind=$K"
